@@ -327,3 +327,80 @@ Proof.
   split; [vm_compute; reflexivity|]. split; [vm_compute; reflexivity|].
   apply rolling_buffer_sufficient_lemma; [exact G | lia | lia | vm_compute; discriminate].
 Qed.
+
+(* ---------- the two-tile address map of a rolling buffer ---------- *)
+Lemma afc_row fmt base storage strides ssz co co' a a' :
+  address_for_coordinate fmt base storage strides None ssz co = Some a ->
+  address_for_coordinate fmt base storage strides None ssz co' = Some a' ->
+  cn co = cn co' -> cw co = cw co' -> cc co = cc co' ->
+  a' - a = (ch co' mod ch storage - ch co mod ch storage) * nthz strides 2.
+Proof.
+  unfold address_for_coordinate. cbn [negb].
+  destruct ((cn storage =? 0) || (ch storage =? 0) || (cw storage =? 0) || (cc storage =? 0)); [discriminate|].
+  intros H1 H2 En Ew Ec. rewrite <- En, <- Ew, <- Ec in H2.
+  destruct (fmt =? FMT_NHCWB16).
+  - match type of H1 with (if ?c then _ else _) = _ => destruct c; [|discriminate] end.
+    match type of H2 with (if ?c then _ else _) = _ => destruct c; [|discriminate] end.
+    injection H1 as <-. injection H2 as <-. ring.
+  - match type of H1 with (if ?c then _ else _) = _ => destruct c; [|discriminate] end.
+    match type of H2 with (if ?c then _ else _) = _ => destruct c; [|discriminate] end.
+    injection H1 as <-. injection H2 as <-. ring.
+Qed.
+
+Lemma round_up_next y hb : 0 < hb -> 0 <= y ->
+  round_up (y + 1) hb = (y / hb + 1) * hb.
+Proof.
+  intros Hhb Hy. unfold round_up.
+  pose proof (Z.div_mod y hb ltac:(lia)) as Hdm. pose proof (Z.mod_pos_bound y hb Hhb) as Hmb.
+  replace (y + 1 + hb - 1) with (y mod hb + (y / hb + 1) * hb) by lia.
+  rewrite Z.div_add by lia. rewrite Z.div_small by lia. lia.
+Qed.
+
+(* For a box of at most buffer-height rows, the (height_0, address 0, address 2) that addresses_for_rolling_buffer hands
+   to the hardware put local row t of the box at row_base + ((y0 + t) mod buffer_height) * stride_y, where row_base is the
+   address of slot 0 for the box's batch/column/channel origin: row y of the tensor always lives in slot y mod
+   buffer_height, for the producer's OFM boxes and for the consumer's IFM boxes alike *)
+Lemma rolling_tile_addresses_lemma fmt base storage strides ssz s e h0 h1 w0 a0 a1 a2 a3 :
+  rolling_addresses fmt base storage strides None ssz s e = RbOk h0 h1 w0 [a0; a1; a2; a3] ->
+  0 < ch storage -> 0 <= ch s -> ch s < ch e -> ch e - ch s <= ch storage ->
+  forall t, 0 <= t < ch e - ch s ->
+    tile_row_addr h0 a0 a2 (nthz strides 2) t
+    = a0 - (ch s mod ch storage) * nthz strides 2 + ((ch s + t) mod ch storage) * nthz strides 2.
+Proof.
+  intros HR Hhb Hy0 Hne Hfit t Ht. unfold rolling_addresses in HR. cbv zeta in HR.
+  set (hb := ch storage) in *. set (sy := nthz strides 2) in *.
+  destruct (address_for_coordinate fmt base storage strides None ssz s) as [a0'|] eqn:E0; [|discriminate].
+  pose proof (round_up_next (ch s) hb Hhb Hy0) as Hru.
+  pose proof (Z.div_mod (ch s) hb ltac:(lia)) as Hdm. pose proof (Z.mod_pos_bound (ch s) hb Hhb) as Hmb.
+  assert (Hq : 0 <= ch s / hb) by (apply Z.div_pos; lia).
+  set (q := ch s / hb) in *. set (m := ch s mod hb) in *.
+  (* (y0 + t) mod hb in the two laps *)
+  assert (Lap1 : ch s + t < (q + 1) * hb -> (ch s + t) mod hb = m + t).
+  { intros Hlt. symmetry. apply (Z.mod_unique_pos _ _ q). lia. lia. }
+  assert (Lap2 : (q + 1) * hb <= ch s + t -> (ch s + t) mod hb = ch s + t - (q + 1) * hb).
+  { intros Hge. symmetry. apply (Z.mod_unique_pos _ _ (q + 1)). lia. lia. }
+  destruct (Z.min (round_up (cw s + 1) (cw storage)) (cw e) <? cw e).
+  { match type of HR with match ?x with _ => _ end = _ => destruct x; discriminate end. }
+  rewrite Hru in HR. fold q in HR.
+  destruct (Z.ltb_spec (Z.min ((q + 1) * hb) (ch e)) (ch e)) as [Hcross|Hno].
+  - destruct (address_for_coordinate fmt base storage strides None ssz
+                {| cn := cn s; ch := Z.min ((q + 1) * hb) (ch e); cw := cw s; cc := cc s |}) as [a2'|] eqn:E2; [|discriminate].
+    injection HR as <- _ _ <- _ <- _.
+    pose proof (afc_row _ _ _ _ _ _ _ _ _ E0 E2 eq_refl eq_refl eq_refl) as Hrow. cbn [ch] in Hrow. fold hb sy m in Hrow.
+    rewrite Z.min_l in * by lia.
+    assert (Hm0 : ((q + 1) * hb) mod hb = 0) by (apply Z.mod_mul; lia). rewrite Hm0 in Hrow.
+    unfold tile_row_addr.
+    destruct (Z.ltb_spec t ((q + 1) * hb - ch s)).
+    + rewrite Lap1 by lia. ring.
+    + rewrite Lap2 by lia. replace a2' with (a0' + (0 - m) * sy) by lia. ring.
+  - injection HR as <- _ _ <- _ _ _.
+    unfold tile_row_addr. rewrite Z.min_r in * by lia.
+    destruct (Z.ltb_spec t (ch e - ch s)); [|lia].
+    rewrite Lap1 by lia. ring.
+Qed.
+
+Example rolling_tile_addresses_example :
+  rolling_addresses FMT_NHCWB16 4096 {| cn := 1; ch := 6; cw := 8; cc := 16 |} (get_strides FMT_NHCWB16 1 {| cn := 1; ch := 6; cw := 8; cc := 16 |})
+    None 768 {| cn := 0; ch := 10; cw := 0; cc := 0 |} {| cn := 1; ch := 15; cw := 8; cc := 16 |}
+  = RbOk 2 2 8 [4096 + 4 * 128; 0; 4096; 0].
+Proof. vm_compute. reflexivity. Qed.
